@@ -447,6 +447,13 @@ def judge(case, m, r, crash, msgs):
             if entry in ("c_nulltable", "c_nodata", "c_nulldata"):
                 if r["ret"] != m["ret"]:
                     fails.append(("C13:c:model-mismatch:null", "model return %s, implementation %s" % (m["ret"], r["ret"]), "corr"))
+            elif m.get("out") in ("runtime", "nonzero") and s.get("pop"):
+                # arguments accepted, but the target already holds data: fit_step throws std::runtime_error, table untouched
+                ok_impl = (r["out"] == "runtime") if e == "cpp" else (r["ret"] != "0")
+                if not ok_impl:
+                    fails.append(("C13:%s:model-mismatch:populated-target" % e, "model: a populated target is refused (runtime_error / non-zero); implementation outcome %s ret %s" % (r["out"], r["ret"]), "corr"))
+                elif r["same"] != m["same"]:
+                    fails.append(("C13:%s:model-mismatch:populated-target-changed" % e, "model: refusing a populated target leaves it unchanged; dump differs", "corr"))
             elif rejected and not (e == "c" and icls == "nonzero" and case.get("twin_runtime")):
                 fails.append(("C13:%s:model-mismatch:model-accepts" % e, "model accepts but the implementation rejected with %s" % icls, "corr"))
             elif e == "cpp" and r["out"] not in ("done", "runtime"):
